@@ -38,7 +38,7 @@ func (e *Enc) instr(in ssa.Instruction, st *State) {
 			e.safety("index", tAnd(Term{app("<=", "0", idx.S), sBool}, Term{app("<", idx.S, ln.S), sBool}), x.Pos())
 			es := e.reg.sortOf(xt.Elem())
 			e.vals[x] = Val{Loc: &Loc{kind: 2, heapName: elemHeapName(xt.Elem()), heapSort: arrSort(arrSort(es)),
-				ref: e.def("arr", Term{app("Slice_arr", sv.S), sInt}), idx: e.def("idx", Term{app("+", app("Slice_off", sv.S), idx.S), sInt}), typ: xt.Elem()}}
+				ref: e.def("arr", Term{app("Slice_arr", sv.S), sInt}), idx: e.def("idx", sidx(sv, idx)), typ: xt.Elem()}}
 		case *types.Pointer:
 			at := xt.Elem().Underlying().(*types.Array)
 			bv := e.val(x.X)
@@ -514,6 +514,7 @@ func (e *Enc) substIter(x Expr, hc *Ctx) Expr {
 type evaluated struct{ v CVal }
 
 func (e *Enc) ret(x *ssa.Return, st *State) {
+	e.retGuards = append(e.retGuards, e.curGuard)
 	if e.fc == nil {
 		return
 	}
